@@ -84,7 +84,8 @@ def buildOp (asIs : Bool) (kind flags : Nat) : St :=
   | 2 =>
     let d := allocDs [] [⟨0, if wrap then lonRaw else lonStd, [7], none⟩, ⟨1, latRaw, [8], none⟩,
                          ⟨2, connStd, [9], none⟩] [42]
-    let r := adopt d.1 d.2 0 (if wrap then some lonStd else none) [1]
+    let r := if asIs then adopt d.1 d.2 0 (if wrap then some lonStd else none) [1]
+             else adoptShallow d.1 d.2 0 (if wrap then some lonStd else none) [1]
     { h := r.1, inputs := [d.2], g := r.2 }
   | _ =>
     let h0 : Heap := [⟨[200, 5, 10, 6, 20, 7], []⟩]
